@@ -1,17 +1,34 @@
 (* C01 - The muxer preserves every accepted access unit: bytes, order, timestamps.
    Only property theorems (each closed by [exact]) and [Print Assumptions].
-   PARTIAL. Proved: the constant fMP4 offset is 10 s in the track's clock; the sample handed to the
-   segmenter carries the written decode time, presentation offset pts - dts and sync flag = random
-   access; units earlier than -10 s are rejected silently and the first accepted unit only fills
-   the one-sample look-ahead; everything published is append-only and immutable (history relation),
-   and the advertised window is a suffix of it. The full accounting statement (decoded = written,
-   no loss / duplicate / reorder, durations = next dts - dts, contiguous base times) is decided on
-   every run by the correspondence run (every decoded sample of every published part / segment is
-   compared with the model's, all six codecs) and by the oracle over the harness's own write log;
-   it is not yet a theorem. *)
+   Proved for the fMP4 and Low-Latency variants (each stream's LOG = the samples of its evicted, listed
+   and open segments' parts, in order, followed by the samples buffered for the part being built):
+   - c01_write_appends_exactly_the_lookahead_unit: a write that returns nil appends to the log of the
+     written track's stream exactly the previously written unit, with its duration set to the
+     distance of the two decode times and every other field (decode time, presentation offset, sync
+     flag, NTP, payload, size) untouched - or nothing, when there is no previous unit yet, when the
+     unit lies before -10 s, when a non-leading track is still waiting for the stream to start or
+     when a video unit is skipped before the first random-access one - and changes no other stream's
+     log; the written unit becomes the look-ahead unit. Hence none lost, duplicated or invented, in
+     writing order, with durations = next dts - dts;
+   - c01_no_rotation_changes_a_log: rotating parts or segments (own stream or another, eviction
+     included) moves samples between buffered / open / listed / evicted but changes no log;
+   - c01_log_only_grows: along every history of successful writes from Start, a log only grows at
+     its tail (nothing emitted is ever lost, changed or reordered), and the structural invariant
+     (one stream per track and vice versa, all streams open together, an open stream has an open
+     part) holds in every reachable state;
+   - the constant offset is 10 s in the track's clock; the sample handed to the segmenter carries the
+     written decode time, presentation offset pts - dts and sync flag = random access; units earlier
+     than -10 s are rejected silently; everything published is append-only and immutable and the
+     advertised window is a suffix of it.
+   PARTIAL in three respects, decided on every run by the correspondence run (every decoded sample of
+   every published part / segment is compared with the model's, all six codecs) and by the oracle
+   over the harness's own write log: (1) the MPEG-TS variant has the append-only history theorem but
+   not the log theorems (its units live in sg_units); (2) "consecutive fragments have contiguous base
+   times" is not a theorem; (3) that the bytes served for a part decode to the model's p_samples is
+   the tie's claim, not a theorem (mediacommon's fMP4 writer is outside the model). *)
 From Coq Require Import List ZArith Bool.
 From GoHls Require Import Model.Mux Proofs.MuxStream Proofs.MuxLift Proofs.MuxWindow Proofs.MuxHistory
-  Proofs.MuxPlaylist Proofs.MuxSamples.
+  Proofs.MuxPlaylist Proofs.MuxSamples Proofs.MuxLog Proofs.MuxLogStep.
 Import ListNotations.
 Local Open Scope Z_scope.
 
@@ -49,3 +66,72 @@ Theorem c01_window_suffix_partial : forall c ops m, reach c ops m -> forall si s
   st_segments s = skipn (Z.to_nat (st_delcount s)) (published s).
 Proof. exact window_is_suffix. Qed.
 Print Assumptions c01_window_suffix_partial.
+
+(* ---- conservation of samples (fMP4 variants) ---- *)
+Theorem c01_write_appends_exactly_the_lookahead_unit : forall m ti t ra pc smp0 m',
+  LI m -> nth_error (m_tracks m) ti = Some t ->
+  fmp4WriteSample m ti ra pc smp0 = (m', Ok tt) ->
+  LI m'
+  /\ (forall j, j <> ti -> slog m' j = slog m j)
+  /\ slog m' ti = slog m ti ++ emitted_by m ti t smp0
+  /\ (0 <= shifted t smp0 -> nth_error (tk_nexts m') ti = Some (Some (incoming_of t smp0)))
+  /\ (shifted t smp0 < 0 -> m' = m).
+Proof. exact fmp4_log_step. Qed.
+Print Assumptions c01_write_appends_exactly_the_lookahead_unit.
+
+Theorem c01_emitted_unit_fields : forall prev dts,
+  s_dts (emit_of prev dts) = s_dts prev /\ s_ptsoff (emit_of prev dts) = s_ptsoff prev
+  /\ s_nonsync (emit_of prev dts) = s_nonsync prev /\ s_ntp (emit_of prev dts) = s_ntp prev
+  /\ s_pay (emit_of prev dts) = s_pay prev /\ s_size (emit_of prev dts) = s_size prev
+  /\ s_dur (emit_of prev dts) = u32 (dts - s_dts prev).
+Proof. intros prev dts. repeat split. Qed.
+Print Assumptions c01_emitted_unit_fields.
+
+Theorem c01_video_write_log : forall m ti t a m',
+  LI m -> nth_error (m_tracks m) ti = Some t -> write_video m ti t a = (m', Ok tt) ->
+  LI m' /\ (forall j, j <> ti -> slog m' j = slog m j)
+  /\ slog m' ti = slog m ti ++ (if video_skipped t a then [] else emitted_by m ti t (video_sample a)).
+Proof. exact write_video_log. Qed.
+Print Assumptions c01_video_write_log.
+
+Theorem c01_no_rotation_changes_a_log : forall m d ntp f, LI m ->
+  (LI (rotateSegments m d ntp f) /\ forall j, slog (rotateSegments m d ntp f) j = slog m j)
+  /\ (LI (rotateParts m d) /\ forall j, slog (rotateParts m d) j = slog m j).
+Proof. intros m d ntp f HL. split; [apply SameLogs_rotateSegments|apply SameLogs_rotateParts]; exact HL. Qed.
+Print Assumptions c01_no_rotation_changes_a_log.
+
+Theorem c01_log_only_grows : forall c m0 ops1 ops2,
+  start c = Ok m0 -> c_variant c <> MPEGTS -> all_ok m0 (ops1 ++ ops2) ->
+  forall j, exists new, slog (mux_run m0 (ops1 ++ ops2)) j = slog (mux_run m0 ops1) j ++ new.
+Proof. exact log_monotone_reachable. Qed.
+Print Assumptions c01_log_only_grows.
+
+Theorem c01_structure_reachable : forall c m0 ops,
+  start c = Ok m0 -> c_variant c <> MPEGTS -> LI (mux_run m0 ops) /\ forall j, slog m0 j = [].
+Proof.
+  intros c m0 ops Hs Hv. destruct (start_LI c m0 Hs Hv) as [HL H0]. split; [now apply LI_mux_run|exact H0].
+Qed.
+Print Assumptions c01_structure_reachable.
+
+(* non-vacuity: a concrete Low-Latency muxer (H264 + AAC) and four successful writes after which the
+   video stream's log holds the first two written units, in order, with their durations *)
+Definition ex_cfg : cfg :=
+  {| c_variant := LL;
+     c_tracks := [ {| t_kind := H264; t_rate := 90000; t_srate := 0; t_name := 0; t_lang := 0; t_default := false; t_params0 := 1 |};
+                   {| t_kind := AAC; t_rate := 48000; t_srate := 48000; t_name := 0; t_lang := 0; t_default := false; t_params0 := 2 |} ];
+     c_segcount := 7; c_segmin := 1000000000; c_partmin := 200000000; c_segmax := 50000000 |}.
+Definition ex_au (dts : Z) (ra : bool) (id : Z) : au :=
+  {| a_pts := dts; a_dts := dts; a_ntp := 1700000000000000000 + dts * 11111; a_ra := ra; a_nonidr := negb ra;
+     a_params := None; a_units := [(id, 100, 100, 0)] |}.
+Definition ex_ops : list wop :=
+  [WWrite 0 (ex_au 0 true 11); WWrite 0 (ex_au 3000 false 12); WWrite 1 (ex_au 0 true 21); WWrite 0 (ex_au 6000 false 13)].
+
+Example c01_example : exists m0,
+  start ex_cfg = Ok m0 /\ c_variant ex_cfg <> MPEGTS /\ all_ok m0 ex_ops
+  /\ map (fun s => (s_pay s, s_dts s, s_dur s)) (slog (mux_run m0 ex_ops) 0) = [(11, 900000, 3000); (12, 903000, 3000)].
+Proof.
+  destruct (start ex_cfg) as [m0| |] eqn:E; [|vm_compute in E; discriminate|vm_compute in E; discriminate].
+  exists m0. split; [reflexivity|]. split; [discriminate|].
+  vm_compute in E. injection E as <-. split; vm_compute; auto.
+Qed.
+Print Assumptions c01_example.
